@@ -1,5 +1,5 @@
 """Per-property wording for MANIFEST.json (kept next to the registry)."""
-HOOK_COMMITS = ["bfa4000 (H0 friend probe)", "7764012 (H1 ParallelSieve piece hook / minimum piece length override)", "9768352 (H4 nthPrimeApprox override)", "e826426 (H1b thread threshold override)"]
+HOOK_COMMITS = ["bfa4000 (H0 friend probe)", "7764012 (H1 ParallelSieve piece hook / minimum piece length override)", "9768352 (H4 nthPrimeApprox override)", "e826426 (H1b thread threshold override)", "c77513f (H2 sysfs root for CpuInfo::init)"]
 NOTES = ("Technique family: machine-checked proof in Lean 4 (see DESIGN.md). Every check = build /repo with "
          "hooks+asserts+sanitizers, regenerate lean/PsModel/Generated from /repo, lake build + axiom audit + "
          "statement lock of the property theorems, then correspondence streams (harness vs compiled Lean model).")
@@ -138,9 +138,12 @@ TEXT["C08"] = {
             "block lengths, hints and float values (C03). Tied to src/api.cpp, Erat.cpp, CpuInfo.hpp by the cfg stream "
             "(set/get sequences, injected cache descriptions, segment geometry for sieve sizes 16..8192 incl. non powers "
             "of two) and by re-running the segment, count and print streams on a second build without runtime dispatch "
-            "(-DWITH_MULTIARCH=OFF: portable pre-sieve, bit decoding and popcount) next to the AVX512 build. Partial: "
-            "parsing of /sys by CpuInfo::init ('always initialises' on malformed files) is OS/iostream behaviour the "
-            "model cannot exhibit; SIMD paths are tied by differential execution, not by a proof about intrinsics.",
+            "(-DWITH_MULTIARCH=OFF: portable pre-sieve, bit decoding and popcount) next to the AVX512 build, and by the sysfs "
+            "stream (hook H2): one process start-up per substituted /sys/devices/system/cpu tree - realistic, hybrid, missing, "
+            "zero/huge/garbage sizes, malformed sharing lists/maps, garbage levels - checking that the library initialises, "
+            "get_sieve_size() stays in range and equals the model's value for the description the process parsed, and results "
+            "are unchanged. Partial: the parsing itself (iostream, std::stoul) is exercised, not proved; SIMD paths are tied by "
+            "differential execution, not by a proof about intrinsics.",
     "design_ref": "DESIGN.md section 8 C08", "note": _COUNT + " " + _IGEN,
     "technique": "Lean 4 proof (clamps, cache-topology range, segment geometry, independence corollaries) + correspondence on two build variants"}
 TEXT["C11"] = {
